@@ -144,7 +144,7 @@ func TestVP_C18_round_hash(t *testing.T) {
 	c := kit.New(t, "C18", "rapid: sets of 1..64 (thorough 1..255) snapshots with distinct hashes (often sharing a 1/8/31-byte prefix), 1..4 distinct timestamps inside one round gap (0, gap-1 and uniform offsets), versions 0/1/2, random node id and round number; common.ComputeRoundHash on permutation A, on permutation B, storage.computeRoundHash on both, all compared with a reference fold written from the statement; then one member hash / the node / the number / the membership is changed and the hash must change; non-trivial = at least 2 members with at least one timestamp tie; distinct by (node, number, sorted member list)")
 	c.Require("tie", "n>=2", "perm-differs", "version-mix", "full-span", "single")
 	c.Assume("timestamps of one round lie within one SnapshotRoundGap (guaranteed by C19); both implementations panic otherwise, which is only checked for agreement")
-	kit.SetChecks(kit.N(3000, 200000))
+	kit.SetChecks(kit.N(8000, 200000))
 	max := 64
 	if kit.Thorough() {
 		max = 255
